@@ -217,10 +217,10 @@ def forge_contract(value: str) -> bytes:
 
     :param value: 'tz12345' or 'tz12345%default'
     """
-    parts = value.split('%')
-    address, entrypoint = (parts[0], parts[1]) if len(parts) == 2 else (parts[0], 'default')
+    # NOTE: only the first `%` separates the address from the entrypoint (entrypoint names may contain `%`)
+    address, _, entrypoint = value.partition('%')
     res = forge_address(address)
-    if entrypoint != 'default':
+    if entrypoint and entrypoint != 'default':
         res += entrypoint.encode()
     return res
 
